@@ -87,7 +87,7 @@ def interior_reads_back(e, interior, l, r, following, block):
     in front of it; brackets are closed at the end; nothing behind an unmarked opening side looks
     like a marker; a block tag is not `raw`"""
     src = interior + MK[r] + e + following
-    if l == "_" and (interior + MK[r])[:1] in ("-", "+"):
+    if l == "_" and (interior + MK[r] + e)[:1] in ("-", "+"):
         return False
     if block and src.lstrip(_ASCII_WS).startswith("raw"):
         return False
@@ -122,9 +122,13 @@ def comment_reads_back(d, it):
     br = body + MK[r]
     if (br + d["ce"]).find(d["ce"]) != len(br):
         return False
-    if l == "_" and br[:1] in ("-", "+"):
+    # (an end delimiter that itself starts with `-`/`+`, e.g. `-->`, counts: `<!---->` is a comment
+    # with a left marker that is never closed)
+    if l == "_" and (br + d["ce"])[:1] in ("-", "+"):
         return False
-    if r == "_" and body[-1:] in ("-", "+"):
+    # the byte inspected for the closing marker is the last one of the body, or, for an empty body,
+    # the first one of the end delimiter
+    if r == "_" and (body[-1:] or d["ce"][:1]) in ("-", "+"):
         return False
     return True
 
@@ -454,13 +458,22 @@ def run(r):
               "delimiters, multi-byte characters, optional line prefixes) x 30-40 random sources made of delimiter fragments.  prog: "
               "random core-fragment programs rewritten to each family (lexed by the model as well).  line: random line statement / line "
               "comment layouts x 3 line endings x 8 settings, as templates with line tags (Lean spec) and against the in-place tag form.  "
-              "cfg: valid, invalid and degenerate delimiter sets.  A seg case is non-trivial when it is distinct, delimiter-free and "
+              "kern: the real utils::memstr / utils::memchr on every haystack of length <= 8 over a 3-letter alphabet x every needle of "
+              "length 1-4 (exhaustive) against the Lean kernels and Python's str.find.  entry: sampled segment sequences through "
+              "render_str, render_named_str, template_from_str, template_from_named_str, render_captured(_to), add_template + "
+              "get_template, a cloned environment, a loader, and with the whitespace settings flipped after add_template / before the "
+              "first load.  wrap: bodies from the segment alphabet inside for / macro / call / set / filter / block / with / autoescape "
+              "with random markers on the opening and closing tags, expectation computed from the rules.  big: texts beyond 64 KiB.  "
+              "cfg: valid, invalid and degenerate delimiter sets.  Families now include self-overlapping delimiters in every role "
+              "(<!-- -->, /** **/, {{% %}}, <<< >>>, ##{ ##}, aab/aaa/abab, line prefixes -- / ---) with texts, comment bodies and raw "
+              "contents built from the delimiters' own characters.  A seg case is non-trivial when it is distinct, delimiter-free and "
               "contains at least one tag")
     r.assumptions = ["byte offsets of the Rust lexer correspond to character positions of the model (UTF-8 self-synchronisation)",
                      "aho_corasick::find_overlapping reports every occurrence of every pattern ordered by end offset",
                      "identifiers are ASCII (with the unicode feature non-ASCII identifier characters make the model answer 'unsupported')",
                      "sequences longer than those enumerated behave as the induction in lex_eq_spec says (proved for the model)"]
-    r.regen_tables()
+    r.regen_tables(["C10_DEFAULT_DELIMS", "C10_VALIDATED_ORDER", "C10_PATTERN_TO_MARKER", "C10_WS_FROM_BYTE", "C10_OPERATORS",
+                    "C10_RADIX_PREFIXES", "C10_SEARCH_SITES"])
     r.lean_prove("MJ.Props.C10", "MJ/Audit/C10.lean", extra_targets=["drive_c10"])
     exe = r.cargo_build("c10")
     if exe is None:
@@ -566,7 +579,7 @@ def check_lines(r, lines, model, verbose=False):
                 r.hist["model"]["compared"] += 1
                 if mtok != tok:
                     r.model_disagreement(case, tok, mtok)
-            if ml.get("free") == "1" and not free:
+            if ml.get("free") == "1" and ml.get("good") == "1" and not free:
                 r.broken.append(f"Lean delimFree holds but the Python check says not free: {case}")
             if stream == "entry":
                 # every way of compiling and rendering the source agrees (whatever the source is)
